@@ -162,7 +162,9 @@ def main(argv):
         for u in r['units']:
             if u['name'] not in names:
                 continue
-            n = sum(v for fn, v in air.items() if fn.split('::')[-1] == u['name'])
+            # a unit's query is named after its header function: the unit name for free functions, Type::method (the repo path) for
+            # methods kept inside an impl block of the same type
+            n = sum(v for fn, v in air.items() if fn.split('::')[-1] == u['name'] or fn.endswith('::' + u['fn']))
             nfail = len([e for e in r['errors'] if e.get('unit') == u['name'] and (not kinds or any(e['kind'].startswith(k) for k in kinds))])
             obligations += n
             discharged += max(0, n - nfail)
@@ -171,7 +173,8 @@ def main(argv):
         # lemmas / spec proofs (functions in the file that are not units)
         unit_names = {u['name'] for u in r['units']}
         if not unit_filter and not kinds:
-            extra = sum(v for fn, v in air.items() if fn.split('::')[-1] not in unit_names)
+            unit_fns = {u['fn'] for u in r['units']}
+            extra = sum(v for fn, v in air.items() if fn.split('::')[-1] not in unit_names and not any(fn.endswith('::' + f) for f in unit_fns))
             obligations += extra
             spec_fail = len([e for e in r['errors'] if e.get('unit') is None])
             discharged += max(0, extra - spec_fail)
